@@ -604,7 +604,8 @@ fn is_streamed(f: &Framing) -> bool {
 }
 
 pub fn c11_strategy() -> BoxedStrategy<SchedConvCase> {
-    let small_body = prop_oneof![3 => Just(Framing::None), 2 => Just(Framing::Length { n: 1024 }), 2 => (1usize..=1024).prop_map(|n| Framing::Length { n }), 1 => Just(Framing::Length { n: 1 })];
+    // (an explicit `Content-Length: 0` is a body of no bytes: read ahead like a request without one)
+    let small_body = prop_oneof![3 => Just(Framing::None), 2 => Just(Framing::Length { n: 1024 }), 2 => (1usize..=1024).prop_map(|n| Framing::Length { n }), 1 => Just(Framing::Length { n: 1 }), 2 => Just(Framing::Length { n: 0 })];
     let streamed = prop_oneof![
         2 => prop_oneof![Just(1025usize), Just(2000usize), Just(9000usize)].prop_map(|n| Framing::Length { n }),
         2 => prop_oneof![Just(1usize), Just(700usize), Just(3000usize)].prop_flat_map(gen::chunks_strategy).prop_map(|chunks| Framing::Chunked { chunks, last_zeros: 0, last_ext: None }),
